@@ -2,7 +2,7 @@
 """Generates /verif/MANIFEST.json from the table below (keeps it valid and in one place)."""
 import json, os, sys
 ROOT = os.path.dirname(os.path.dirname(os.path.abspath(__file__)))
-HOOK_COMMITS = ["9f2e238"]
+HOOK_COMMITS = ["9f2e238", "471c9da"]
 TRUST = ("trusted base: rustc/std (String is the reference model), proptest 1.11 generators and shrinking, the harness "
          "(shadow heap, interpreter) itself; 64-bit little-endian only; lean_string compiled with feature verif-hooks "
          "and debug assertions; bounded history length / text size as stated in the evidence rule")
@@ -17,11 +17,11 @@ CHECKS = {
          "Small concurrent programs over one shared heap buffer are generated and shrunk by proptest; for each, loom enumerates schedules and visibility orders. Oracles in every execution: each thread's handles read what its own operations produce; no buffer access (reads, write windows, realloc, free) unordered with a conflicting one; every buffer released exactly once. Bounded by loom's preemption bound and memory-model subset.", "DESIGN.md §5.4, §6 C04"),
  "C05": ("fault_enumeration", "lsv", "fault injection enumerated over every allocator request of proptest-generated histories (singles; pairs in thorough)",
          "For each generated history every allocator request index is failed in turn (thorough: pairs); oracle: Err/clean panic, target handle identical (or whole-item prefix for iterator-driven calls), other handles untouched, refcounts and heap consistent, nothing leaked. A catalogue of 9 target states x every allocating/callback operation is enumerated too, and every allocation an entry point makes outside the crate's own buffer management (none on the unchanged tree) is refused in turn (an abort is reported through crash triage).", "DESIGN.md §6 C05"),
- "C06": ("exploration", "lsv", "exhaustive size grid (powers of two, 56-bit boundary, isize/usize MAX, each +-2 and minus len) x entry points x target states, plus proptest histories with giant sizes and lying size hints; shim refuses giant requests deterministically",
+ "C06": ("exploration", "lsv", "exhaustive size grid (powers of two, 56-bit boundary, isize/usize MAX, each +-2 and minus len) x entry points x target states, plus proptest histories with giant sizes and lying size hints; shim refuses giant requests deterministically; ordinary-size grid cases re-run with each allocator request failing",
          "Every grid size through every size-taking entry point (incl. iterator size hints) in 9 storage states, followed by further use of all handles; oracle: documented postcondition on Ok, ReserveError only when a limit is exceeded or the allocator refused, target/other handles/refcounts/heap unchanged after a failure, clean panic text for the panicking forms.", "DESIGN.md §6 C06"),
  "C07": ("exploration", "lsv", "index grid: all UTF-8 width patterns x storage states x index operations x every byte index, differential against String's panics; plus proptest histories",
          "Panic parity with String on every byte index 0..=len+2 and usize::MAX for insert/insert_str/remove/truncate (try_ and plain) over all character-width patterns in every storage state, and no effect of a panicking call on target, other handles, allocator and refcounts.", "DESIGN.md §6 C07"),
- "C08": ("exploration", "lsv", "clone sweep over lengths 0..4 MiB x source states x clone counts with an allocator-request counter, plus clone oracles inside proptest histories",
+ "C08": ("exploration", "lsv", "clone sweep over lengths 0..4 MiB x source states x clone counts with an allocator-request counter, the same on buffers whose reference count was first raised to around every power of two up to 2^62 (guarded hook), plus clone oracles inside proptest histories",
          "All clone-like calls are checked for zero allocator requests, pointer identity (heap/static) or equal handle bytes (inline), equality and intact survivors after drops, across lengths, states and clone counts.", "DESIGN.md §6 C08"),
  "C09": ("exploration", "lsv", "constructor sweep over all width compositions <= 16 bytes and every final byte, through every listed route, with an allocator-request counter; proptest inline-edit histories",
          "Every listed constructor/conversion on every text shape up to 16 bytes (every final byte value) must not touch the allocator - neither the crate's own buffer management (hooks) nor anything else (a counting global allocator sees temporaries) - incl. owned inputs with spare capacity; longer texts must allocate exactly once with capacity == len; inline edit histories staying within 16 bytes must not allocate.", "DESIGN.md §6 C09"),
@@ -29,9 +29,9 @@ CHECKS = {
          "from_static_str/clone/pop/truncate/clear on static handles never allocate and keep pointing at the caller's bytes; any later operation leaves the handle a prefix of the static text or an owned copy equal to the model; the static bytes are compared with pristine copies after every step.", "DESIGN.md §6 C10"),
  "C11": ("exploration", "lsv", "stateful PBT with capacity-relative argument generation (fill to capacity +-2); invariant capacity >= len on every handle every step; zero-request oracle within capacity",
          "capacity() >= len() for every handle after every step, with_capacity/reserve postconditions, exclusivity after reserve, the reported capacity physically fits the allocation, and appends/inserts that fit the reported capacity of an exclusively owned string neither allocate nor move.", "DESIGN.md §6 C11"),
- "C12": ("exploration", "lsv", "growth-event oracle (two-sided bound from the statement) inside proptest histories plus push-one-char loops with request and bytes-moved counters",
+ "C12": ("exploration", "lsv", "growth-event oracle (two-sided bound from the statement; for iterator- and formatter-driven appends the bounds that follow for a chain of growth steps) inside proptest histories plus push-one-char loops with request and bytes-moved counters",
          "Every growth event in generated histories is checked against both bounds of the statement; push loops up to 2^20 (thorough 4*2^20) characters are bounded in allocator requests (logarithmic) and bytes moved (linear).", "DESIGN.md §6 C12"),
- "C13": ("exploration", "lsv", "exhaustive grid capacity x length x min_capacity x sharing plus proptest histories; postcondition oracle taken from the statement",
+ "C13": ("exploration", "lsv", "exhaustive grid capacity (17 bytes ... 1 MiB) x length x min_capacity x sharing plus proptest histories; postcondition oracle taken from the statement",
          "Exhaustive grid over capacities/lengths/min_capacity/sharing situations plus generated histories; checks the statement's bounds and the exact landing size whenever the precondition holds.", "DESIGN.md §6 C13"),
  "C14": ("exploration", "lsv", "differential vs core Display: exhaustive 8/16-bit (thorough: 32-bit), all power-of-ten/two/extreme boundaries, proptest values uniform per digit count, shadow heap guard zones",
          "to_lean_string/try_to_lean_string of every integer type against core Display written into a stack buffer; exhaustive where feasible, boundary-complete and densely sampled elsewhere.", "DESIGN.md §6 C14"),
@@ -43,9 +43,9 @@ CHECKS = {
          "Pairs of strings built through different storage histories are compared with every reader (==, cmp, hash, Display/Debug, foreign == in both orders, map lookups by &str, AsRef/Deref) against the same operations on the texts.", "DESIGN.md §6 C17"),
  "C18": ("fault_enumeration", "lsv", "callback-panic position enumeration over proptest-generated histories, String-after-same-panic as oracle, shadow-heap leak accounting",
          "Every callback-taking operation of each generated history is re-run with its callback panicking at invocation k for every k that fires; compared with String after the identical panic, plus isolation, refcount and leak invariants.", "DESIGN.md §6 C18"),
- "C19": ("exploration", "lsv-features", "differential vs String/&str with the serde and arbitrary features on: recording Serializer, serde value deserializers, serde_json, exhaustive byte-class sequences, proptest texts and Unstructured seeds",
+ "C19": ("exploration", "lsv-features", "differential vs String/&str with the serde and arbitrary features on: recording Serializer (human-readable and not), serde value deserializers, serde_json, exhaustive byte-class sequences, proptest texts and Unstructured seeds",
          "Serialisation equals String's (one serialize_str), every str/borrowed str/String/bytes/borrowed bytes input deserialises to the text or is rejected exactly when it is not UTF-8, every visitor entry point (visit_str/borrowed_str/string/bytes/borrowed_bytes/byte_buf and non-string inputs) and deserialize_in_place into 7 kinds of pre-existing content agree with String; LeanString::arbitrary / arbitrary_take_rest / size_hint equal <&str>'s on the same Unstructured over consecutive draws.", "DESIGN.md §6 C19"),
- "C20": ("exploration", "lsv", "niche/layout sweep, Option round trips in proptest histories, and a configuration-matrix differential: identical seeded histories digested in every feature set x optimisation level (and hooks-off builds)",
+ "C20": ("exploration", "lsv", "niche/layout sweep, Option round trips in proptest histories, and a configuration-matrix differential: identical seeded histories (a sixth of them with an injected allocation failure) digested in every feature set x optimisation level (and hooks-off builds)",
          "Sizes and alignment asserted; Some(s) matched as Some for every inline final byte and heap/static length; the same generated histories run with all C01-C03 oracles in the default build and produce identical value and allocator-event digests in {default, no-default-features, all features} x {optimised without debug assertions, unoptimised} and in hooks-off builds; all 8 feature combinations of the crate build.", "DESIGN.md §6 C20"),
 }
 NOT_YET = {}
